@@ -356,6 +356,24 @@ theorem program_sim_machine (kd : Kind) (res : Key → Res) (s : State) (l : Lab
     IR.stepState Gen.strPrograms kd res s l = step kd res s l :=
   ⟨IR.stepState_offset kd res s l, IR.stepState_str kd res s l⟩
 
+/-- the reachable states of the machine that runs the translated programs are exactly the `Reachable`
+states the theorems quantify over -/
+theorem reachable_translated {s0 : State} :
+    (IR.ReachableIR Gen.offsetPrograms kd res s0 s ↔ Reachable kd res s0 s) ∧
+    (IR.ReachableIR Gen.strPrograms kd res s0 s ↔ Reachable kd res s0 s) :=
+  ⟨IR.reachableIR_offset, IR.reachableIR_str⟩
+
+/-- the headline property restated directly over the translated source: in every state the tzstr (resp.
+tzoffset) factory, as its source reads now, can reach — any threads, scripts, schedule, drops, collections —
+one key has one object among all the references callers hold -/
+theorem unique_live_lru_source
+    (h : IR.ReachableIR Gen.strPrograms .lru res (initState cap scripts) s ∨
+         IR.ReachableIR Gen.offsetPrograms .lru res (initState cap scripts) s)
+    {r r' : Ref} (hr : r ∈ s.g.held) (hr' : r' ∈ s.g.held) (hkey : r.key = r'.key) : r.id = r'.id := by
+  rcases h with h | h
+  · exact unique_live_lru (IR.reachableIR_str.mp h) hr hr' hkey
+  · exact unique_live_lru (IR.reachableIR_offset.mp h) hr hr' hkey
+
 /-- non-vacuity: the generated tzoffset program has 14 instructions, its 4th constructs the object and
 jumps to the exceptional `with` exit (index 13) if the constructor raises -/
 example : (IR.code Gen.offsetPrograms .lruCall).length = 14 ∧
